@@ -26,6 +26,9 @@ var c02Risky = []struct{ key, src string }{
 	{"sleep-nan", "sleep 0/0\nprint 1\n"},
 	{"exit-nan", "exit 0/0\n"},
 	{"empty-times", "x := [] * 3\nprint x\n"},
+	// a procedure call (type none) as an operand of == / != was accepted by the parser: nil dereference in evalBinaryExpr
+	{"none-operand-of-equality-host-crash", "func f\n    return\nend\nprint ((f) == (f))\n"},
+	{"none-operand-of-equality-host-crash", "func f\n    print 1\nend\nx := (f) != (f)\nprint x\n"},
 	// repeating the EMPTY array a huge number of times: the element-count cap (6185acc) does not apply (0 elements),
 	// and the loop ran `count` times doing nothing - a hang that cannot be interrupted (no yield inside)
 	{"empty-repetition-huge-count-hangs", "x:[]num\nx = x * 9007199254740992\nprint \"done\" x\n"},
